@@ -5,7 +5,6 @@ import (
 	"os"
 	"slices"
 	"sort"
-	"strings"
 	"sync"
 
 	"github.com/NethermindEth/juno/db"
@@ -161,8 +160,11 @@ func (d *Database) NewIterator(prefix []byte, withUpperBound bool) (db.Iterator,
 		vals = make([][]byte, 0, len(d.db))
 	)
 
+	// Same key range as the Pebble backends: prefix is the (inclusive) lower bound and, when
+	// requested, UpperBound(prefix) the exclusive upper bound. A nil upper bound (empty or
+	// all-0xff prefix) means unbounded.
 	for k := range d.db {
-		if strings.HasPrefix(k, pr) && (!withUpperBound || k < ub) {
+		if k >= pr && (upperBound == nil || k < ub) {
 			keys = append(keys, k)
 		}
 	}
